@@ -156,6 +156,37 @@ namespace rkcommon {
       buf.write((const byte_t *)rh.data(), sizeof(T) * sz);
       return buf;
     }
+
+    // The concrete array types are an exact match for the generic (raw
+    // object representation) operator above, which would win over the
+    // AbstractArray<T> overload: forward them explicitly.
+    template <typename T>
+    inline WriteStream &operator<<(WriteStream &buf,
+                                   const utility::OwnedArray<T> &rh)
+    {
+      return buf << static_cast<const utility::AbstractArray<T> &>(rh);
+    }
+
+    template <typename T>
+    inline WriteStream &operator<<(WriteStream &buf,
+                                   const utility::ArrayView<T> &rh)
+    {
+      return buf << static_cast<const utility::AbstractArray<T> &>(rh);
+    }
+
+    template <typename T>
+    inline WriteStream &operator<<(WriteStream &buf,
+                                   const utility::FixedArray<T> &rh)
+    {
+      return buf << static_cast<const utility::AbstractArray<T> &>(rh);
+    }
+
+    template <typename T>
+    inline WriteStream &operator<<(WriteStream &buf,
+                                   const utility::FixedArrayView<T> &rh)
+    {
+      return buf << static_cast<const utility::AbstractArray<T> &>(rh);
+    }
     /*! @} */
 
     /*! @{ serialize operations for strings */
